@@ -55,6 +55,6 @@ class Timer:
             # called from the timer's own callback: run() is executing and
             # re-reads expire_time when the callback returns
             return
-        if not self.proc.processed:
+        if self.proc.is_alive:
             self.proc.interrupt("restart timer")
             self.proc = self.env.process(self.run(self.env))
